@@ -440,4 +440,151 @@ theorem adjustBetween_spec (c : Cfg) (fam : IsiFamily) (o : Oracles) (Obt OFbt H
       · rw [hv, hX0, List.map_map, List.map_map]; rfl
   · exact done _ _ h
 
+/-! ### assembling: the result in sorted order is sorted -/
+
+theorem takeIdx_argsort (F : List Rat) : takeIdx F (argsort F) = sortQ F := by
+  apply List.ext_getElem
+  · unfold takeIdx; rw [List.length_map, argsort_length, sortQ_length]
+  · intro k h1 h2
+    have hk : k < F.length := by rw [sortQ_length] at h2; exact h2
+    have hka : k < (argsort F).length := by rw [argsort_length]; exact hk
+    have e : (takeIdx F (argsort F))[k] = F.getD ((argsort F)[k]) 0 := by simp [takeIdx]
+    rw [e, ← getDN_eq _ k hka, (argsort_spec F k hk).2, getD_eq _ k h2]
+
+theorem sorted_three (a b : Nat) (lo hi : Rat) (mid : List Rat) (hmid : mid.Pairwise (· ≤ ·))
+    (hlo : 0 < a → ∀ v ∈ mid, lo ≤ v) (hhi : 0 < b → ∀ v ∈ mid, v ≤ hi) (hlh : 0 < a → 0 < b → lo ≤ hi) :
+    (List.replicate a lo ++ (mid ++ List.replicate b hi)).Pairwise (· ≤ ·) := by
+  rw [List.pairwise_append, List.pairwise_append]
+  refine ⟨?_, ⟨hmid, ?_, ?_⟩, ?_⟩
+  · rw [List.pairwise_replicate]; right; exact le_refl _
+  · rw [List.pairwise_replicate]; right; exact le_refl _
+  · intro x hx y hy
+    obtain ⟨hb, rfl⟩ := List.mem_replicate.mp hy
+    exact hhi (Nat.pos_of_ne_zero hb) x hx
+  · intro x hx y hy
+    obtain ⟨ha, rfl⟩ := List.mem_replicate.mp hx
+    have ha' := Nat.pos_of_ne_zero ha
+    rcases List.mem_append.mp hy with hy | hy
+    · exact hlo ha' y hy
+    · obtain ⟨hb, rfl⟩ := List.mem_replicate.mp hy
+      exact hlh ha' (Nat.pos_of_ne_zero hb)
+
+theorem geOf_fin {v q : Rat} (h : ExtRat.geOf v (.fin q) = true) : q ≤ v := by
+  simpa [ExtRat.geOf] using h
+theorem leOf_fin {v q : Rat} (h : ExtRat.leOf v (.fin q) = true) : v ≤ q := by
+  simpa [ExtRat.leOf] using h
+
+theorem takeIdx_getD (m : List Rat) (idx : List Nat) (i : Nat) (hi : i < idx.length) :
+    (takeIdx m idx).getD i 0 = m.getD (idx.getD i 0) 0 := by
+  unfold takeIdx
+  rw [getD_eq _ i (by simpa using hi), List.getElem_map, getDN_eq _ i hi]
+
+/-- reading a sorted list through the ranks of `F` preserves the order of `F` -/
+theorem orderPres_takeIdx_rankOf (F m : List Rat) (hm : m.Pairwise (· ≤ ·)) (hlen : m.length = F.length) :
+    OrderPres F (takeIdx m (rankOf F)) := by
+  refine ⟨by unfold takeIdx; rw [List.length_map, rankOf_length], ?_⟩
+  intro i j hi hj hlt
+  rw [takeIdx_getD m _ i (by rw [rankOf_length]; exact hi), takeIdx_getD m _ j (by rw [rankOf_length]; exact hj)]
+  exact sorted_getD_mono hm (le_of_lt (rankOf_lt_of_lt F hi hj hlt)) (by rw [hlen]; exact rankOf_lt F j hj)
+
+theorem step6Raw_range (c : Cfg) (Os Hs Fs : List Rat) (ho : Os ≠ []) (hh : Hs ≠ []) (hf : Fs ≠ []) :
+    0 ≤ (step6Raw c Os Hs Fs).1 ∧ 0 ≤ (step6Raw c Os Hs Fs).2 := by
+  have lo := List.length_pos_iff.mpr ho
+  have lh := List.length_pos_iff.mpr hh
+  have lf := List.length_pos_iff.mpr hf
+  unfold step6Raw
+  constructor
+  · simp only []
+    split_ifs
+    · exact (Props.C11.nrToBound_range _ _ _ _ (by simpa [maskBeyondLower] using lo) (by simpa [maskBeyondLower] using lh)
+        (by simpa [maskBeyondLower] using lf)).1
+    · exact le_refl _
+  · simp only []
+    split_ifs
+    · exact (Props.C11.nrToBound_range _ _ _ _ (by simpa [maskBeyondUpper] using lo) (by simpa [maskBeyondUpper] using lh)
+        (by simpa [maskBeyondUpper] using lf)).1
+    · exact le_refl _
+
+/-- **ISIMIP step 6 preserves ranks.** -/
+theorem step6_orderPres (c : Cfg) (fam : IsiFamily) (o : Oracles) (obs oF H F out : List Rat)
+    (ho : obs ≠ []) (hh : H ≠ []) (hf : F ≠ [])
+    (hela : c.eventLikelihoodAdjustment = false) (hL : IsiLaws c fam) (hc : CfgOrdered c)
+    (hdata : ∀ v ∈ F, InBounds c v)
+    (h : step6 c fam o obs oF H F = .ok out) : OrderPres F out := by
+  unfold step6 at h
+  cases hfull : step6Full c fam o obs oF H F with
+  | error e => rw [hfull] at h; simp [Except.map] at h
+  | ok r =>
+    rw [hfull] at h
+    have hout : out = r.result := by
+      simp only [Except.map] at h
+      injection h with h; exact h.symm
+    rw [step6Full_eq, takeIdx_argsort] at hfull
+    -- the counts
+    have hOs : sortQ obs ≠ [] := sortQ_ne_nil ho
+    have hHs : sortQ H ≠ [] := sortQ_ne_nil hh
+    have hFs : sortQ F ≠ [] := sortQ_ne_nil hf
+    obtain ⟨r1, r2⟩ := step6Raw_range c (sortQ obs) (sortQ H) (sortQ F) hOs hHs hFs
+    obtain ⟨c1, c2, c3, _, _⟩ := Props.C11.finalCounts_valid _ _ ((sortQ F).length : Int) r1 r2 (Int.natCast_nonneg _)
+    generalize (finalCounts (step6Raw c (sortQ obs) (sortQ H) (sortQ F)).1 (step6Raw c (sortQ obs) (sortQ H) (sortQ F)).2
+      ((sortQ F).length : Int)).1 = nL at hfull c1 c3
+    generalize (finalCounts (step6Raw c (sortQ obs) (sortQ H) (sortQ F)).1 (step6Raw c (sortQ obs) (sortQ H) (sortQ F)).2
+      ((sortQ F).length : Int)).2 = nU at hfull c2 c3
+    obtain ⟨a, rfl⟩ := Int.eq_ofNat_of_zero_le c1
+    obtain ⟨b, rfl⟩ := Int.eq_ofNat_of_zero_le c2
+    have hn' : a + b ≤ (sortQ F).length := by exact_mod_cast c3
+    -- the three segments of the sorted future values
+    set xs := sortQ F with hxs
+    let A := xs.take a
+    let B := (xs.drop a).take (xs.length - a - b)
+    let C := (xs.drop a).drop (xs.length - a - b)
+    have hA : A.length = a := by simp [A]; omega
+    have hB : B.length = xs.length - a - b := by simp [B]
+    have hC : C.length = b := by simp [C]; omega
+    have hx : xs = A ++ (B ++ C) := by simp [A, B, C]
+    have hsorted : (A ++ (B ++ C)).Pairwise (· ≤ ·) := by rw [← hx]; exact sortQ_sorted F
+    have hBs : B.Pairwise (· ≤ ·) := (List.pairwise_append.mp (List.pairwise_append.mp hsorted).2.1).1
+    have hBmem : ∀ v ∈ B, v ∈ F := fun v hv =>
+      (sortQ_perm F).mem_iff.mp (by rw [← hxs, hx]; simp [hv])
+    rw [hx, ← hA, ← hC] at hfull
+    have hOFin : ∀ w ∈ valuesBetween c (sortQ oF), InBounds c w := fun w hw => inBounds_of_valuesBetween hc hw
+    have hadj : valuesBetween c (sortQ oF) ≠ [] → ∀ v br pre, adjustBetween c fam o (valuesBetween c (sortQ obs))
+        (valuesBetween c (sortQ oF)) (valuesBetween c (sortQ H)) B (valuesBetween c (A ++ (B ++ C))) = .ok (v, br, pre) →
+        v.length = B.length := by
+      intro hne v br pre hv
+      obtain ⟨T, _, _, e⟩ := adjustBetween_spec c fam o _ _ _ _ _ v br pre hela hL hne hOFin hv
+      rw [e]; simp
+    obtain ⟨lo, hi, mid, hms, hres, hlo, hhi, hml, hmid⟩ :=
+      step6After_shape c fam o (sortQ obs) (sortQ oF) (sortQ H) A B C F r hadj hfull
+    -- the middle values: sorted and inside the bounds
+    have hmidspec : mid.Pairwise (· ≤ ·) ∧ ∀ v ∈ mid, InBounds c v := by
+      rcases hmid with rfl | ⟨hne, br, pre, hv⟩
+      · exact ⟨hBs, fun v hv => hdata v (hBmem v hv)⟩
+      · obtain ⟨T, hT, hTin, e⟩ := adjustBetween_spec c fam o _ _ _ _ _ mid br pre hela hL hne hOFin hv
+        rw [e]
+        refine ⟨List.Pairwise.map T (fun x y hxy => hT x y hxy) hBs, ?_⟩
+        intro v hv
+        obtain ⟨w, _, rfl⟩ := List.mem_map.mp hv
+        exact hTin w
+    have hsortedOut : r.mappedSorted.Pairwise (· ≤ ·) := by
+      rw [hms]
+      apply sorted_three _ _ lo hi mid hmidspec.1
+      · intro ha v hv
+        have := hlo (List.length_pos_iff.mp ha)
+        have hb := (hmidspec.2 v hv).1
+        rw [this] at hb; exact geOf_fin hb
+      · intro hb v hv
+        have := hhi (List.length_pos_iff.mp hb)
+        have hb' := (hmidspec.2 v hv).2
+        rw [this] at hb'; exact leOf_fin hb'
+      · intro ha hb
+        exact hc.bounds lo hi (hlo (List.length_pos_iff.mp ha)) (hhi (List.length_pos_iff.mp hb))
+    have hlenOut : r.mappedSorted.length = F.length := by
+      rw [hms]
+      have : xs.length = F.length := sortQ_length F
+      simp only [List.length_append, List.length_replicate, hml]
+      omega
+    rw [hout, hres]
+    exact orderPres_takeIdx_rankOf F r.mappedSorted hsortedOut hlenOut
+
 end Lemmas.C09
